@@ -65,6 +65,37 @@ def verdict_propagated(ff: FuncFacts, call: ast.Call) -> Tuple[bool, str]:
     return True, 'tested on every path; the error branch returns or raises it'
 
 
+def leaf_validation_not_short_circuited(chk: Check, rule: str) -> None:
+    """A leaf port class that overrides ``validate`` still sends every value through ``Port.validate`` (the type check and the validator) on every way that reports
+    "valid": no shortcut for values that "were validated before" -- the port's validator, type or default can be changed through its setters after it was declared
+    (that is how an inherited or exposed port is tightened in define())."""
+    prog = chk.prog
+    base = prog.cls('ports.Port')
+    ns = prog.cls('ports.PortNamespace')
+    n = 0
+    for k in prog.subclasses(base):
+        if k is ns or k.is_subclass_of(ns) or 'validate' not in k.methods:
+            continue
+        f = prog.view(k.vmethods['validate'])
+        ff = chk.ctx.facts.analyse(f)
+        n += 1
+        bad = None
+        for r in [m for m in ff.cfg.nodes if m.kind == 'return']:
+            v = r.ast.value
+            delegated = isinstance(v, ast.Call) and isinstance(v.func, ast.Attribute) and v.func.attr == 'validate' and norm(v.func.value) in ('super()', f'super({k.name}, self)', 'Port')
+            if v is None or (isinstance(v, ast.Constant) and v.value is None):
+                bad = bad or r
+            elif not delegated and isinstance(v, ast.Name):
+                from ..rules import conditional_values as _cv
+                vals = [x for _, x in _cv(ff, v.id)]
+                if not vals or not all(isinstance(x, ast.Call) and (last_name(x) == 'validate' or last_name(x).endswith('Error')) for x in vals):
+                    bad = bad or r
+        chk.ob(rule, f, bad is None, f'{k.name}.validate reports "valid" only as the verdict of Port.validate' + ('' if bad is None else
+               f': `{norm(bad.ast)}` declares a value valid without the type check and the validator having seen it'), node=bad.ast if bad is not None else None,
+               kind=f'override-delegates:{k.name}')
+    chk.units['leaf_validate_overrides'] = n
+
+
 def run(chk: Check) -> None:
     prog = chk.prog
     verdicts(chk)
@@ -81,6 +112,10 @@ def run(chk: Check) -> None:
     # its populate_defaults flag) instead of replacing it by a fresh one (shared with C15)
     from .c15 import namespace_created_only_if_absent
     namespace_created_only_if_absent(chk, 'PROV-declared-spec')
+    leaf_validation_not_short_circuited(chk, 'DOM-verdict-not-dropped')
+    # "required ports present": a namespace implied by a dotted name is required like any other, whatever the first port declared below it says (shared with C12)
+    from .c12 import implicit_namespace_takes_nothing_from_port
+    implicit_namespace_takes_nothing_from_port(chk, 'PROV-declared-spec')
 
 
 # ---------------------------------------------------------------------- 1. no validation verdict is dropped
